@@ -34,6 +34,14 @@ Corollary bleu_sharding : forall (c : bcfg) (t t' : mtree bleu_metric),
   bleu_gamma c (run bleu_metric c t) = bleu_gamma c (run bleu_metric c t').
 Proof. intros c t t' H1 H2 HP. exact (additive_family_sharding bleu_spec_add c t t' H1 H2 HP). Qed.
 
+(* V_fixed (repaired _bleu_score_compute): same state, same merge; only compute() differs *)
+Corollary bleu_sharding_fixed : forall (c : bcfg) (t t' : mtree (add_metric (bleu_spec_add_v V_fixed))),
+  Forall (fun b => bleu_ok (fst c) b = true) (stream _ t) ->
+  Forall (fun b => bleu_ok (fst c) b = true) (stream _ t') ->
+  Permutation (stream _ t) (stream _ t') ->
+  bleu_gamma_v V_fixed c (run (add_metric (bleu_spec_add_v V_fixed)) c t) = bleu_gamma_v V_fixed c (run (add_metric (bleu_spec_add_v V_fixed)) c t').
+Proof. intros c t t' H1 H2 HP. exact (additive_family_sharding (bleu_spec_add_v V_fixed) c t t' H1 H2 HP). Qed.
+
 (* non-vacuity: two different shardings of the same three BLEU update batches *)
 Open Scope Z_scope.
 Example bleu_sharding_example :
@@ -57,3 +65,4 @@ Print Assumptions wer_sharding.
 Print Assumptions wip_sharding.
 Print Assumptions wil_sharding.
 Print Assumptions bleu_sharding.
+Print Assumptions bleu_sharding_fixed.
